@@ -329,8 +329,11 @@ def create_for_folder_subcommand(
         found_file_paths = set()
         # in a fixed order, and every missing path stands for one new path at most: otherwise the result depends on
         # the order in which the sets happen to be iterated as soon as two files have the same content
+        # a recorded path that is ignored now is not met by the traversal, but it is not missing either: it cannot be the
+        # former name of anything
+        rename_candidates = sorted(without_ignored_paths(not_found_paths, root_path, ignore_spec, existing_history))
         for new_path in sorted(new_paths):
-            for not_found_path in sorted(not_found_paths):
+            for not_found_path in rename_candidates:
                 if not_found_path in found_file_paths:
                     continue
                 # a file does not turn into a folder by being renamed (or the other way round), the digests of
@@ -1503,7 +1506,7 @@ def discard_found_path(not_found_paths, history, file_path, is_dir):
         not_found_paths.discard(file_path)
 
 
-def test_for_missing_files(not_found_paths, root_path, ignore_spec: MHLIgnoreSpec = MHLIgnoreSpec(), history=None):
+def without_ignored_paths(not_found_paths, root_path, ignore_spec: MHLIgnoreSpec, history=None):
     ignore_path_spec = ignore_spec.get_path_spec()
 
     def is_ignored(path):
@@ -1514,8 +1517,12 @@ def test_for_missing_files(not_found_paths, root_path, ignore_spec: MHLIgnoreSpe
         is_folder = history is not None and history.is_recorded_as_directory(path)
         return is_folder and ignore_path_spec.match_file(relative_path + "/")
 
+    return [x for x in not_found_paths if not is_ignored(x)]
+
+
+def test_for_missing_files(not_found_paths, root_path, ignore_spec: MHLIgnoreSpec = MHLIgnoreSpec(), history=None):
     # update to exclude our ignored files
-    not_found_paths = [x for x in not_found_paths if not is_ignored(x)]
+    not_found_paths = without_ignored_paths(not_found_paths, root_path, ignore_spec, history)
     if len(not_found_paths) == 0:
         return None
     # test our not_found_paths against our ignore spec to ensure these weren't explicitly ignored.
